@@ -404,14 +404,14 @@ func (m *mirror) runJob(j Job, seed int64, replay string) (*Report, string, erro
 	if len(other) > 0 {
 		logs += strings.Join(other, "\n") + "\n"
 	}
-	if rep == nil && replay == "" && (strings.Contains(logs, "fatal error: ") || strings.Contains(logs, "\npanic: ")) {
+	if rep == nil && replay == "" && (strings.Contains(logs, "fatal error: ") || strings.Contains(logs, "\npanic: ") || strings.HasPrefix(logs, "panic: ")) {
 		// the job's process died of something no recover can catch (stack exhaustion, a concurrent map
 		// write, a panic in a goroutine the harness does not own): on a tree where the property holds no job
 		// ever does, so this is reported as a violation, with the head of the crash message
 		head := logs
 		if i := strings.Index(head, "fatal error: "); i >= 0 {
 			head = head[i:]
-		} else if i := strings.Index(head, "\npanic: "); i >= 0 {
+		} else if i := strings.Index(head, "\npanic: "); i >= 0 && !strings.HasPrefix(head, "panic: ") {
 			head = head[i+1:]
 		}
 		if len(head) > 600 {
